@@ -191,3 +191,95 @@ func H_C11_SerializeSPDX() {
 	serializers.NewSPDX23().Serialize(doc, &native.SerializeOptions{}, nil)
 	rt.Thaw()
 }
+
+// H_C11_NodeLists: set-valued attributes with two symbolic elements on the receiver and one shared with the argument
+// (a removed element behind a kept one), spare capacity included: Diff / Equal / Checksum must not store into either.
+func H_C11_NodeLists() {
+	n1, n2 := sentinelNode("n", "a"), sentinelNode("n", "b")
+	x, y := rt.NondetString("x"), rt.NondetString("y")
+	switch rt.NondetChoice("field", 4) {
+	case 0:
+		n1.Licenses, n2.Licenses = withSpare([]string{x, y}, "l"), []string{x}
+	case 1:
+		n1.Attribution, n2.Attribution = withSpare([]string{x, y}, "l"), []string{x}
+	case 2:
+		n1.FileTypes, n2.FileTypes = withSpare([]string{x, y}, "l"), []string{y}
+	case 3:
+		n1.PrimaryPurpose, n2.PrimaryPurpose = []sbom.Purpose{sbom.Purpose_LIBRARY, sbom.Purpose_APPLICATION}, []sbom.Purpose{sbom.Purpose_LIBRARY}
+	}
+	rt.Freeze("C11.Node.nowrite", n1, n2)
+	n1.Diff(n2)
+	n2.Diff(n1)
+	n1.Equal(n2)
+	n1.Checksum()
+	rt.Thaw()
+}
+
+// H_C11_Contacts: a supplier with two contacts whose names are symbolic (any order), also nested one level deeper.
+func H_C11_Contacts() {
+	n1, n2 := sentinelNode("n", "a"), sentinelNode("n", "b")
+	mk := func(p string) *sbom.Person {
+		return &sbom.Person{Name: "org", Contacts: []*sbom.Person{{Name: rt.NondetString(p + "c"), Contacts: []*sbom.Person{{Name: rt.NondetString(p + "cc")}, {Name: rt.NondetString(p + "cc")}}},
+			{Name: rt.NondetString(p + "c")}}}
+	}
+	if rt.NondetChoice("which", 2) == 0 {
+		n1.Suppliers, n2.Suppliers = []*sbom.Person{mk("a")}, []*sbom.Person{mk("b")}
+	} else {
+		n1.Originators, n2.Originators = []*sbom.Person{mk("a")}, []*sbom.Person{mk("b")}
+	}
+	nl1, nl2 := &sbom.NodeList{Nodes: []*sbom.Node{n1}}, &sbom.NodeList{Nodes: []*sbom.Node{n2}}
+	rt.Freeze("C11.Node.nowrite", nl1, nl2)
+	n1.Equal(n2)
+	n1.Checksum()
+	n1.Diff(n2)
+	n1.Copy()
+	nl1.Equal(nl2)
+	rt.Thaw()
+}
+
+// H_C11_UnionParallel: the argument carries two edges with the same source and type that the receiver lacks (and the
+// other way round): merging them in the result must not extend the operand's own edges.
+func H_C11_UnionParallel() {
+	mk := func(p string, parallel bool) *sbom.NodeList {
+		nl := &sbom.NodeList{}
+		for _, id := range []string{"a", "b", "c"} {
+			nl.Nodes = append(nl.Nodes, sentinelNode(id, p))
+		}
+		if parallel {
+			nl.Edges = []*sbom.Edge{{Type: sbom.Edge_contains, From: "a", To: withSpare([]string{"b"}, p+"t1")}, {Type: sbom.Edge_contains, From: "a", To: withSpare([]string{"c"}, p+"t2")}}
+		}
+		return nl
+	}
+	k := rt.NondetChoice("who", 3)
+	a, b := mk("a", k != 0), mk("b", k != 1)
+	rt.Freeze("C11.NodeList.Union.nowrite", a, b)
+	a.Union(b)
+	rt.Thaw()
+	rt.Freeze("C11.NodeList.Intersect.nowrite", a, b)
+	a.Intersect(b)
+	rt.Thaw()
+	c := cloneList(b)
+	rt.Freeze("C11.NodeList.Add.nowrite", b)
+	a.Add(b)
+	rt.Thaw()
+	_ = c
+}
+
+// H_C11_SerializeFiles: file and package nodes whose text attributes are arbitrary symbolic strings (anything a
+// serializer might normalise in place: white space, case), written by every serializer.
+func H_C11_SerializeFiles() {
+	f := &sbom.Node{Id: "f", Type: sbom.Node_FILE, Name: rt.NondetString("name"), Licenses: []string{rt.NondetString("lic"), rt.NondetString("lic")},
+		FileTypes: []string{rt.NondetString("ft")}, Attribution: []string{rt.NondetString("attr")}, LicenseConcluded: rt.NondetString("lc"), Copyright: rt.NondetString("cr")}
+	p := &sbom.Node{Id: "p", Type: sbom.Node_PACKAGE, Name: rt.NondetString("name"), Licenses: []string{rt.NondetString("lic")},
+		Attribution: []string{rt.NondetString("attr")}, LicenseConcluded: rt.NondetString("lc"), Copyright: rt.NondetString("cr"),
+		Suppliers: []*sbom.Person{{Name: rt.NondetString("sup")}}}
+	doc := &sbom.Document{Metadata: &sbom.Metadata{Id: "doc", Version: "1", Name: "n"},
+		NodeList: &sbom.NodeList{Nodes: []*sbom.Node{p, f}, RootElements: []string{"p"}, Edges: []*sbom.Edge{{Type: sbom.Edge_contains, From: "p", To: []string{"f"}}}}}
+	rt.Freeze("C11.Serialize.nowrite", doc)
+	if rt.NondetChoice("fmt", 2) == 0 {
+		serializers.NewSPDX23().Serialize(doc, &native.SerializeOptions{}, nil)
+	} else {
+		serializers.NewCDX("1.5", "json").Serialize(doc, &native.SerializeOptions{}, nil)
+	}
+	rt.Thaw()
+}
